@@ -25,7 +25,7 @@ BAD_FILES = [
 
 
 def script_desc(ev, upto):
-    return [{k: v for k, v in e.items() if k in ("op", "addr", "ty", "v", "text")} for e in ev[:upto]]
+    return [{k: v for k, v in e.items() if k in ("op", "addr", "ty", "v", "text", "ins")} for e in ev[:upto]]
 
 
 def run(ctx, prefix):
@@ -80,6 +80,12 @@ def run(ctx, prefix):
         scripts.append([dict(op="set", addr="/fx_on", ty="T"), dict(op="set", addr="/fx/type", ty="i", v=1), dict(op="set", addr="/fx/level", ty="i", v=77), dict(op="set", addr="/pi", ty="i", v=9), dict(op="saveload", seed=5)])
         for what, text in BAD_FILES:
             scripts.append([dict(op="loadraw", text=text, what=what)])
+        # C14 at the resolution of float bit patterns: every sequence of FloatPort.tla (neighbouring floats, denormals, each port's bound and its neighbours)
+        fseq, rf = ctx.vectors("FloatPort", "FloatPort_3.cfg" if thorough else "FloatPort_2.cfg", "fseq")
+        ctx.bounds["float_pattern_sequences"] = len(fseq)
+        for i, q in enumerate(fseq):
+            for addr in (("/pg", "/pf", "/af1", "/sub/sf") if (thorough or len(q) == 1) else (("/pg", "/pf", "/af1", "/sub/sf")[i % 4],)):
+                scripts.append([dict(op="floatseq", addr=addr, ins=q + [1065353216])])
     p = ctx.path("scripts.ndjson")
     with open(p, "w") as f:
         for s in scripts:
@@ -110,6 +116,8 @@ def run(ctx, prefix):
                         extra = " saved lines %s; load outcomes %s" % ([ln["text"] for ln in e["lines"]], [(o["count"], o["res"]["ret"]) for o in e["outcomes"]][:4])
                     elif e["op"] in ("set", "get"):
                         extra = " events %s" % [(x["kind"], x["addr"], x["tags"], [(a["t"], a["n"]) for a in x["args"]]) for x in e["events"]]
+                    elif e["op"] == "floatseq":
+                        extra = " float patterns %s sent to %s: stored %s, undo events %s" % (e["ins"], e["addr"], [x["stored"] for x in e["steps"]], [x["undo"] for x in e["steps"]])
                     elif e["op"] == "loadraw":
                         extra = " load_from_file returned %s for a file with: %s" % (e["ret"], scripts[i - 1][0].get("what"))
                     ctx.reject(dict(clause=c, op=e["op"], addr=e.get("addr", "")), dict(script=scripts[i - 1][:l] if e["op"] != "saveload" else scripts[i - 1][:l]),
